@@ -125,6 +125,8 @@ Gap(style, k, a, b) ==
                [] style.gaps = "sp"  -> " "
                [] style.gaps = "nl"  -> "\n"
                [] style.gaps = "cm"  -> IF k % 2 = 0 THEN " /*c*/ " ELSE " //c\n"
+               \* comments holding the other characters some tools treat as line boundaries (CR, FF): not line ends for FCP
+               [] style.gaps = "xc"  -> IF k % 3 = 0 THEN " /*c\rd*/ " ELSE IF k % 3 = 1 THEN " //c\r\n" ELSE " /*\f*/ "
                [] OTHER -> GapChoices[((style.seed * 7 + k * 5 + (k \div 3) * 11 + (k \div 7)) % 6) + 1] IN
     IF g = "" /\ need THEN " " ELSE g
 
